@@ -349,9 +349,9 @@ theorem processBlock_spec {U D : List BlockAbs} {s : State} {b : BlockAbs} (hwf 
 
 /-! ### ProcessBlockHeader -/
 
-theorem processHeader_spec {U D : List BlockAbs} {s : State} {b : BlockAbs} (hwf : WF U)
-    (hbU : b ∈ U) (hi : Inv U D [] [] s) : Inv U D [] [] (processHeader s b).1 := by
-  unfold processHeader
+theorem processHeaderCore_spec {U D : List BlockAbs} {s : State} {b : BlockAbs} (hwf : WF U)
+    (hbU : b ∈ U) (hi : Inv U D [] [] s) : Inv U D [] [] (processHeaderCore s b).1 := by
+  unfold processHeaderCore
   cases hlp : lookup s.idx b.parent with
   | none => exact hi
   | some p =>
@@ -487,9 +487,26 @@ theorem processHeader_spec {U D : List BlockAbs} {s : State} {b : BlockAbs} (hwf
             rw [hdat, hki, hpool, hev1]
             exact hi.deliv x hx hp
 
-theorem processHeader_best (s : State) (b : BlockAbs) :
-    (processHeader s b).1.best = s.best := by
-  unfold processHeader
+theorem inv_congr {U D : List BlockAbs} {Q : List Hash} {P : List BlockAbs} {s s' : State} (hi' : s'.idx = s.idx)
+    (hst : s'.st = s.st) (hb : s'.best = s.best) (ho : s'.orphans = s.orphans) (he : s'.evicted = s.evicted)
+    (hi : Inv U D Q P s) : Inv U D Q P s' := by
+  have hss : ∀ k, s'.status k = s.status k := fun k => by unfold State.status; rw [hst]
+  have hpool : Pool s' P = Pool s P := by unfold Pool; rw [ho]
+  refine ⟨cinv_congr hi' hst hb hi.c, maxAll_congr hi' hst hb hi.max, ?_, ?_, ?_, ?_⟩
+  · intro w hw; rw [hpool] at hw; rw [hss]; exact hi.wOK w hw
+  · rw [hpool]; exact hi.wND
+  · intro o ho' hd; rw [ho] at ho'; rw [hss] at hd ⊢; exact hi.oPar o ho' hd
+  · intro x hx hp; rw [hss, hss, hpool, he]; exact hi.deliv x hx hp
+
+theorem processHeader_spec {U D : List BlockAbs} {s : State} {b : BlockAbs} (hwf : WF U)
+    (hbU : b ∈ U) (hi : Inv U D [] [] s) : Inv U D [] [] (processHeader s b).1 := by
+  obtain ⟨x, hx⟩ := processHeader_shape s b
+  rw [hx]
+  exact inv_congr (s := (processHeaderCore s b).1) rfl rfl rfl rfl rfl (processHeaderCore_spec hwf hbU hi)
+
+theorem processHeaderCore_best (s : State) (b : BlockAbs) :
+    (processHeaderCore s b).1.best = s.best := by
+  unfold processHeaderCore
   split
   · rfl
   · split
@@ -497,6 +514,11 @@ theorem processHeader_best (s : State) (b : BlockAbs) :
     · split
       · split <;> rfl
       · split <;> rfl
+
+theorem processHeader_best (s : State) (b : BlockAbs) : (processHeader s b).1.best = s.best := by
+  obtain ⟨x, hx⟩ := processHeader_shape s b
+  rw [hx]
+  exact processHeaderCore_best s b
 
 /-! ### a whole delivery history -/
 
